@@ -163,7 +163,51 @@ func emitC03Collision(out *Out, r *Rng, muts int) {
 	out.Emit(c)
 }
 
+// documents whose outcome - a root or an error - must be the same on every run and for every spelling: shapes with
+// several named graphs and nodes / graph nodes referenced from more than one place, where the code walks Go maps
+func emitC03Determinism(out *Out, r *Rng, runs int) {
+	type shape struct {
+		name string
+		docs []string
+	}
+	for _, sh := range []shape{
+		{"graph-node-referenced-from-two-graphs", []string{
+			`{"@context":{"ex":"urn:ex:"},"@id":"urn:root","ex:first":{"@id":"_:g","ex:name":"G","@graph":[{"@id":"urn:n","ex:v":1}]},"ex:second":{"@id":"_:h","@graph":[{"@id":"urn:m","ex:ref":{"@id":"_:g","ex:note":"N"}}]}}`,
+			`{"ex:second":{"@graph":[{"ex:ref":{"ex:note":"N","@id":"_:x1"},"@id":"urn:m"}],"@id":"_:x2"},"ex:first":{"@graph":[{"ex:v":1,"@id":"urn:n"}],"ex:name":"G","@id":"_:x1"},"@id":"urn:root","@context":{"ex":"urn:ex:"}}`}},
+		{"graph-node-referenced-from-three-graphs", []string{
+			`{"@context":{"ex":"urn:ex:"},"@id":"urn:root","ex:a":{"@id":"_:g","@graph":[{"@id":"urn:n","ex:v":1}]},"ex:b":{"@id":"_:h","@graph":[{"@id":"urn:m","ex:ref":{"@id":"_:g"}}]},"ex:c":{"@id":"_:i","@graph":[{"@id":"urn:k","ex:ref":{"@id":"_:g"}}]}}`}},
+		{"node-described-in-two-graphs", []string{
+			`{"@context":{"ex":"urn:ex:"},"@id":"urn:root","ex:a":{"@id":"_:g","@graph":[{"@id":"urn:n","ex:v":1}]},"ex:b":{"@id":"_:h","@graph":[{"@id":"urn:n","ex:w":2}]}}`,
+			`{"ex:b":{"@graph":[{"ex:w":2,"@id":"urn:n"}],"@id":"_:q"},"@context":{"ex":"urn:ex:"},"ex:a":{"@graph":[{"ex:v":1,"@id":"urn:n"}],"@id":"_:p"},"@id":"urn:root"}`}},
+		{"two-graphs-one-referencing-a-node-of-the-other", []string{
+			`{"@context":{"ex":"urn:ex:"},"@id":"urn:root","ex:a":{"@id":"_:g","@graph":[{"@id":"urn:n","ex:v":1}]},"ex:b":{"@id":"_:h","@graph":[{"@id":"urn:m","ex:ref":{"@id":"urn:n"}}]}}`}},
+		{"nested-graphs", []string{
+			`{"@context":{"ex":"urn:ex:"},"@id":"urn:root","ex:a":{"@id":"_:g","@graph":[{"@id":"urn:n","ex:in":{"@id":"_:h","@graph":[{"@id":"urn:m","ex:v":[3,1,2]}]}}]}}`}},
+	} {
+		var why []string
+		first := ""
+		for i := 0; i < runs; i++ {
+			doc := sh.docs[i%len(sh.docs)]
+			rt, err := rootOf([]byte(doc), hPoseidon(), &mapLoader{docs: map[string][]byte{}}, i%3 == 0)
+			outcome := "root " + rt
+			if err != nil {
+				outcome = "error"
+			}
+			if i == 0 {
+				first = outcome
+			} else if outcome != first {
+				why = append(why, fmt.Sprintf("%s: run %d gives %s, the first run gave %s (same document, %d spellings)", sh.name, i, trunc(outcome, 40), trunc(first, 40), len(sh.docs)))
+				break
+			}
+		}
+		out.Emit(Case{Op: "none", In: J{"shape": sh.name, "doc": sh.docs[0]}, Impl: J{"outcome": trunc(first, 30)}, Prop: propOf(why), Tags: []string{"shape:determinism", "shape:" + sh.name}, NT: true})
+	}
+}
+
 func genC03(out *Out, r *Rng, tier string, n int, shard int) {
+	if shard == 0 {
+		emitC03Determinism(out, r, 40)
+	}
 	k, kx, reps, muts := 6, 3, 3, 6
 	if tier == "thorough" {
 		k, kx, reps, muts = 16, 6, 8, 20
